@@ -108,3 +108,33 @@ func VerifC29Open(token string, key, aad []byte) (serverID string, sid []byte, e
 
 // VerifC29SessionIDLen is sessionIDLen.
 const VerifC29SessionIDLen = sessionIDLen
+
+// VerifC29Handle keeps a registry entry reachable after it has left the
+// registry, so its per-session lock can still be probed.
+type VerifC29Handle struct{ e *sessionEntry }
+
+// Locked reports whether the entry's per-session lock is held right now
+// (TryLock probe; released again immediately when it was free).
+func (h VerifC29Handle) Locked() bool {
+	if h.e.lock.TryLock() {
+		h.e.lock.Unlock()
+		return false
+	}
+	return true
+}
+
+// VerifC29Handles returns a handle for every live registry entry, keyed by the
+// raw session id.
+func (h *HttpServer) VerifC29Handles() map[string]VerifC29Handle {
+	r := h.stickyRegistry
+	if r == nil {
+		return nil
+	}
+	r.mu.Lock()
+	defer r.mu.Unlock()
+	out := make(map[string]VerifC29Handle, len(r.entries))
+	for sid, e := range r.entries {
+		out[string(sid[:])] = VerifC29Handle{e}
+	}
+	return out
+}
